@@ -125,7 +125,9 @@ def check(spec):
         if is_err(res):
             return out.fail("robust optimisation raised " + res.short())
         if isinstance(res, str):
-            return out.drop("robust_" + res.replace(" ", "_"))
+            if res != "inaccurate":     # scenarios differ in costs only: any feasible point of the deterministic problem is feasible
+                return out.fail("robust optimisation reports '%s' although the deterministic problem is feasible" % res)
+            return out.drop("robust_inaccurate")
         x = np.asarray(res.x, float)
         worst, where = lpkit.residual(raw0, x)
         if worst > tf:
@@ -161,7 +163,9 @@ def check(spec):
     if is_err(res):
         return out.fail("optimising the SLP raised " + res.short())
     if isinstance(res, str):
-        return out.drop("slp_" + res.replace(" ", "_"))
+        if res != "inaccurate":
+            return out.fail("the SLP is reported '%s' although the deterministic problem is feasible" % res)
+        return out.drop("slp_inaccurate")
     x = np.asarray(res.x, float)
     V = float(res.value)
     blocks = []
